@@ -93,6 +93,26 @@ type vfC10Params struct {
 	HitRing  int
 }
 
+// vfC10Late recognises the one late reply to a question this client stopped waiting for: same ID, same question,
+// exactly that question's answer. It is the client's own reply, not a leftover of another client's.
+func vfC10Late(raw []byte, outstanding, abandoned map[uint16]string) (uint16, bool) {
+	m := new(dns.Msg)
+	if err := m.Unpack(raw); err != nil || len(m.Question) != 1 {
+		return 0, false
+	}
+	if _, live := outstanding[m.Id]; live {
+		return 0, false
+	}
+	want, ok := abandoned[m.Id]
+	if !ok || !strings.EqualFold(m.Question[0].Name, want) {
+		return 0, false
+	}
+	if _, bad := vfC10Check("", raw, map[uint16]string{m.Id: want}); bad != "" {
+		return 0, false
+	}
+	return m.Id, true
+}
+
 // vfC10Check verifies that msg answers an outstanding question of this client and holds exactly its answer.
 func vfC10Check(who string, raw []byte, outstanding map[uint16]string) (uint16, string) {
 	m := new(dns.Msg)
@@ -132,7 +152,7 @@ func vfC10Run(t *testing.T, dir string, p vfC10Params) (violation string, stats 
 		s := fmt.Sprintf(f, a...)
 		viol.CompareAndSwap(nil, &s)
 	}
-	var answered, unanswered, inlineHits, frames atomic.Int64
+	var answered, unanswered, inlineHits, frames, slowStreams atomic.Int64
 	cfg := vfBaseConfig(dir)
 	cfg.IngressWorkers = p.Workers
 	cfg.RateLimit, cfg.ClientRateLimit = 0, 0
@@ -199,6 +219,7 @@ func vfC10Run(t *testing.T, dir string, p vfC10Params) (violation string, stats 
 			}
 			defer c.Close()
 			outstanding := map[uint16]string{}
+			abandoned := map[uint16]string{}
 			var id uint16 = uint16(i) << 8
 			sent := 0
 			buf := make([]byte, 65536)
@@ -218,11 +239,17 @@ func vfC10Run(t *testing.T, dir string, p vfC10Params) (violation string, stats 
 				_ = c.SetReadDeadline(time.Now().Add(150 * time.Millisecond))
 				n, err := c.Read(buf)
 				if err != nil {
-					// whatever is still outstanding was dropped (by design for "drop" names, by the kernel otherwise)
+					// whatever is still outstanding was dropped (by design for "drop" names, by the kernel otherwise) - or is
+					// merely late on a busy machine: the client stops waiting, but one late reply to such a question is its own
 					unanswered.Add(int64(len(outstanding)))
-					for x := range outstanding {
+					for x, nm := range outstanding {
+						abandoned[x] = nm
 						delete(outstanding, x)
 					}
+					continue
+				}
+				if late, isLate := vfC10Late(buf[:n], outstanding, abandoned); isLate {
+					delete(abandoned, late)
 					continue
 				}
 				gotID, bad := vfC10Check(who, buf[:n], outstanding)
@@ -242,8 +269,10 @@ func vfC10Run(t *testing.T, dir string, p vfC10Params) (violation string, stats 
 			// linger: nothing may arrive for a client with nothing outstanding
 			_ = c.SetReadDeadline(time.Now().Add(40 * time.Millisecond))
 			if n, err := c.Read(buf); err == nil {
-				_, bad := vfC10Check(who, buf[:n], outstanding)
-				report("%s (after all its questions had been answered or given up)", bad)
+				if _, isLate := vfC10Late(buf[:n], outstanding, abandoned); !isLate {
+					_, bad := vfC10Check(who, buf[:n], outstanding)
+					report("%s (after all its questions had been answered or given up)", bad)
+				}
 			}
 		}(i)
 	}
@@ -287,7 +316,11 @@ func vfC10Run(t *testing.T, dir string, p vfC10Params) (violation string, stats 
 					_ = c.SetReadDeadline(time.Now().Add(2 * time.Second))
 					var l [2]byte
 					if _, err := io.ReadFull(c, l[:]); err != nil {
-						report("%s: burst %d: reply %d of %d never arrived (%v)", who, b, q, nq, err)
+						if ne, ok := err.(net.Error); ok && ne.Timeout() {
+							slowStreams.Add(1) // a busy machine, or C11's business: lateness is not misdelivery
+							return
+						}
+						report("%s: burst %d: the stream ended before reply %d of %d (%v)", who, b, q, nq, err)
 						return
 					}
 					body := make([]byte, binary.BigEndian.Uint16(l[:]))
@@ -306,7 +339,7 @@ func vfC10Run(t *testing.T, dir string, p vfC10Params) (violation string, stats 
 		}(j)
 	}
 	wg.Wait()
-	stats = map[string]int64{"udp-answered": answered.Load(), "udp-unanswered": unanswered.Load(), "udp-hit-answers": inlineHits.Load(), "tcp-frames": frames.Load(), "handler-calls": stub.calls.Load() - warm}
+	stats = map[string]int64{"udp-answered": answered.Load(), "udp-unanswered": unanswered.Load(), "udp-hit-answers": inlineHits.Load(), "tcp-frames": frames.Load(), "tcp-read-timeouts": slowStreams.Load(), "handler-calls": stub.calls.Load() - warm}
 	if v := viol.Load(); v != nil {
 		violation = *v
 	}
